@@ -1491,8 +1491,26 @@ bucket_pop(Bucket *self, PyObject *args)
     /* No default given.  The only difference in this case is the error
      * message, which depends on whether the bucket is empty.
      */
-    if (Bucket_length(self) == 0)
-        PyErr_SetString(PyExc_KeyError, "pop(): Bucket is empty");
+    {
+        /* Looking at the bucket can run code (it may have to be loaded):  not
+         * with the KeyError still pending.
+         */
+        PyObject *exc_type, *exc_value, *exc_tb;
+        int len;
+
+        PyErr_Fetch(&exc_type, &exc_value, &exc_tb);
+        len = Bucket_length(self);
+        if (len > 0)
+            PyErr_Restore(exc_type, exc_value, exc_tb);
+        else
+        {
+            Py_XDECREF(exc_type);
+            Py_XDECREF(exc_value);
+            Py_XDECREF(exc_tb);
+            if (len == 0)
+                PyErr_SetString(PyExc_KeyError, "pop(): Bucket is empty");
+        }
+    }
     return NULL;
 }
 
